@@ -1,5 +1,103 @@
-(* C35 placeholder while the model is being validated *)
-From BV Require Import lib.Ints model.Orphanage.
-Theorem C35_placeholder : True.
-Proof. exact I. Qed.
-Print Assumptions C35_placeholder.
+(* C35  The orphan pool stays bounded and peers cannot evict each other's orphans.
+   Only statements here; each is closed by `exact` of a lemma from proofs/OrphanMain.v.
+
+   Reading guide.  `orun tx_of (o_empty G R) ops` executes an arbitrary sequence `ops` of the operations AddTx /
+   AddAnnouncer / EraseTx / EraseForPeer / EraseForBlock / AddChildrenToWorkSet / GetTxToReconsider on the model of
+   TxOrphanageImpl (model/Orphanage.v) created by MakeTxOrphanage(G, R).  Premises kept in every statement:
+   - transactions are identified by wtxid: `tx_of` maps a wtxid to the transaction data (x_wtxid (tx_of w) = w), every
+     input weighs at least 164 units (41 bytes without witness discount) and weights are non-negative;
+   - 0 < G <= 1,000,000 and 0 < R <= INT32_MAX (GetDosScore puts the per-peer limits into FeeFrac's int32 size; the
+     defaults are 3000 and 404,000);
+   - the peers that ever announce are drawn from a list PS of at most G peers: with more announcing peers than
+     max_global_latency_score, MaxPeerLatencyScore() is 0 and GetDosScore's assert(max_peer_latency_score > 0) fails.
+   `g_bad` is the model's flag for "an Assume/assert failed or an iterator was invalid". *)
+From BV Require Import lib.Ints gen.Params_gen model.Orphanage proofs.OrphanBasics proofs.OrphanInv proofs.OrphanLimit
+  proofs.OrphanSteps proofs.OrphanWork proofs.OrphanMain.
+Local Open Scope Z_scope.
+
+(* SanityCheck() holds in every reachable state and the pool is within its global limits: no failed Assume;
+   (wtxid, peer) is a key; the per-peer usage / announcement count / latency score equal their recomputation; the
+   number of unique orphans, their deduplicated usage and latency score equal their recomputation;
+   m_outpoint_to_orphan_wtxids maps an outpoint to exactly the orphans present that spend it (no dangling entries,
+   none missing); m_reconsiderable_wtxids is exactly the set of wtxids with a reconsiderable announcement; and
+   TotalLatencyScore <= MaxGlobalLatencyScore, TotalOrphanUsage <= MaxGlobalUsage. *)
+Theorem C35_consistent_and_within_limits_in_every_reachable_state :
+  forall tx_of, (forall w, x_wtxid (tx_of w) = w) ->
+  (forall w, 164 * Z.of_nat (length (x_inputs (tx_of w))) <= x_weight (tx_of w)) -> (forall w, 0 <= x_weight (tx_of w)) ->
+  forall PS G R ops, 0 < G <= 1000000 -> 0 < R <= INT32_MAX -> Z.of_nat (length PS) <= G ->
+  Forall (op_peer_ok PS) ops ->
+  let g := fst (orun tx_of (o_empty G R) ops) in let l := g_anns g in
+  g_bad g = false /\
+  NoDup (map (fun a => (o_wtxid a, o_peer a)) l) /\
+  (forall p, usage_by_peer g p = pd_usage (recompute_peer l p) /\ anns_from_peer g p = pd_count (recompute_peer l p) /\
+             latency_from_peer g p = pd_latency (recompute_peer l p)) /\
+  g_unique g = spec_unique_count l /\ g_usage g = spec_total_usage l /\ total_latency g = spec_total_latency l /\
+  max_global_usage g = spec_max_global_usage (g_reserved g) l /\ max_peer_latency g = spec_max_peer_latency (g_maxlat g) l /\
+  (forall k w, In w (g_outmap g k) <-> (In w (wtxids_of l) /\ In k (x_inputs (tx_of w)))) /\
+  (forall w, In w (g_recon g) <-> exists a, In a l /\ o_wtxid a = w /\ o_reconsider a = true) /\
+  spec_total_latency l <= g_maxlat g /\ spec_total_usage l <= spec_max_global_usage (g_reserved g) l.
+Proof. exact oclause_sanity. Qed.
+Print Assumptions C35_consistent_and_within_limits_in_every_reachable_state.
+
+(* What every size-changing operation does, in any reachable state.  `entry_of_op` is the set of announcements on
+   which the operation's final LimitOrphans runs: the old ones plus the new announcement (AddTx / AddAnnouncer, unless
+   rejected), or the old ones without the erased wtxid (EraseTx), without ALL and ONLY the disconnected peer's
+   announcements (EraseForPeer), without ALL and ONLY the announcements of orphans spending an outpoint spent by the
+   block (EraseForBlock).  The result is `entry` filtered: nothing is added; an announcement that is gone after the
+   operation belonged to a peer whose DoS score exceeded 1 on `entry` (so a peer within its reserved share never
+   loses an announcement, whatever other peers add); and if `entry` is within the global limits nothing is evicted.
+   spec_dosy / spec_needs_trim are the recomputation functions of model/Orphanage.v that the violation search also
+   evaluates on the implementation's observations. *)
+Theorem C35_operations_remove_exactly_what_they_should_and_evict_only_peers_over_their_share :
+  forall tx_of, (forall w, x_wtxid (tx_of w) = w) ->
+  (forall w, 164 * Z.of_nat (length (x_inputs (tx_of w))) <= x_weight (tx_of w)) -> (forall w, 0 <= x_weight (tx_of w)) ->
+  forall PS G R ops o, 0 < G <= 1000000 -> 0 < R <= INT32_MAX -> Z.of_nat (length PS) <= G ->
+  Forall (op_peer_ok PS) ops -> op_peer_ok PS o -> limiting_op o = true ->
+  let g := fst (orun tx_of (o_empty G R) ops) in
+  let entry := entry_of_op tx_of g o in let g' := fst (ostep tx_of g o) in
+  exists keep, g_anns g' = filter keep entry /\
+    (forall b, In b entry -> keep b = false -> spec_dosy (g_maxlat g) (g_reserved g) entry (o_peer b) = true) /\
+    (spec_needs_trim (g_maxlat g) (g_reserved g) entry = false -> g_anns g' = entry).
+Proof. exact oclause_op_effect. Qed.
+Print Assumptions C35_operations_remove_exactly_what_they_should_and_evict_only_peers_over_their_share.
+
+(* AddChildrenToWorkSet (for any random choices following the driver's rule) and GetTxToReconsider change m_reconsider
+   flags only: same transactions, announcers and sequence numbers, same outpoint index *)
+Theorem C35_reconsideration_changes_flags_only :
+  forall tx_of, (forall w, x_wtxid (tx_of w) = w) ->
+  (forall w, 164 * Z.of_nat (length (x_inputs (tx_of w))) <= x_weight (tx_of w)) -> (forall w, 0 <= x_weight (tx_of w)) ->
+  forall PS G R ops o, 0 < G <= 1000000 -> 0 < R <= INT32_MAX -> Z.of_nat (length PS) <= G ->
+  Forall (op_peer_ok PS) ops -> limiting_op o = false ->
+  let g := fst (orun tx_of (o_empty G R) ops) in let g' := fst (ostep tx_of g o) in
+  Forall2 (fun a a' => o_tx a = o_tx a' /\ o_peer a = o_peer a' /\ o_seq a = o_seq a') (g_anns g) (g_anns g') /\
+  g_outmap g' = g_outmap g.
+Proof. exact oclause_flag_ops. Qed.
+Print Assumptions C35_reconsideration_changes_flags_only.
+
+(* The fact behind Assume(!heap_peer_dos.empty()) in LimitOrphans ("if the global limits are exceeded, it must be that
+   there is a peer whose DoS score > 1"), for the per-peer limits max_lat / reserved that were computed when at least
+   as many peers were present: in a consistent state (OWF = the SanityCheck clauses, proofs/OrphanInv.v) where no peer
+   has a DoS score above 1, NeedsTrim() is false. *)
+Theorem C35_over_the_global_limits_implies_a_peer_over_its_share :
+  forall tx_of, (forall w, x_wtxid (tx_of w) = w) ->
+  (forall w, 164 * Z.of_nat (length (x_inputs (tx_of w))) <= x_weight (tx_of w)) -> (forall w, 0 <= x_weight (tx_of w)) ->
+  forall g max_lat, OWF tx_of g -> 0 < max_lat -> max_lat * n_peers g <= g_maxlat g ->
+  (forall q d, peer_find q (g_peers g) = Some d -> ratio_gt (dos_score d max_lat (g_reserved g)) FF_ONE = false) ->
+  needs_trim g = false.
+Proof. exact oclause_key. Qed.
+Print Assumptions C35_over_the_global_limits_implies_a_peer_over_its_share.
+
+(* non-vacuity: four orphans of weight 300 with reserved weight 500 per peer.  Peer 1 announces two (600 > 500, but the
+   global limit 2 * 500 is not exceeded after peer 2's orphan arrives), then a third: the pool is over its limit, peer
+   1 is over its share and loses its OLDEST announcement; peer 2, within its share, keeps its orphan. *)
+Example C35_nonvacuous :
+  let txs := fun w => mkTx w w 300 [(- w, 0)] 1 in
+  let ops := [OAddTx 1 1; OAddTx 2 1; OAddTx 3 2; OAddTx 4 1] in
+  map (fun a => (o_wtxid a, o_peer a)) (g_anns (fst (orun txs (o_empty 10 500) ops))) = [(2, 1); (3, 2); (4, 1)] /\
+  g_bad (fst (orun txs (o_empty 10 500) ops)) = false /\
+  Forall (op_peer_ok [1; 2]) ops /\ (forall w, x_wtxid (txs w) = w) /\
+  (forall w, 164 * Z.of_nat (length (x_inputs (txs w))) <= x_weight (txs w)).
+Proof.
+  cbv zeta. split; [vm_compute; reflexivity|]. split; [vm_compute; reflexivity|]. split; [repeat (constructor; [simpl; tauto|]); constructor|].
+  split; [reflexivity|]. intros w. simpl. lia.
+Qed.
